@@ -372,6 +372,7 @@ Definition m_step1 (c : cfg) (s : iset) (o : op) : iset * res ret :=
   | Snapshot => (s, m_snapshot s)
   | SelfOp _ => (s, Raise NotModelled)
   | Cmp k o => (s, Ok (RBool (m_cmp s k o)))
+  | SelfMix _ _ => (s, Raise NotModelled)
   end.
 
 (* Calls whose operand is the set itself.  Every method except symmetric_difference_update reads the
@@ -384,6 +385,12 @@ Definition m_step (c : cfg) (s : iset) (o : op) : iset * res ret :=
   match o with
   | SelfOp SSymDiffUpdate => (m_clear s, Ok RNone)
   | SelfOp k => m_step1 c s (expand_self k (as_operand s))
+  | SelfMix k os =>
+      (* several operands, some of them the set itself: update() reaches self through chain() only after the
+         earlier operands were added, and then adds items that are all present; intersection_update builds
+         its IndexedSets before the first discard; difference_update finds `self in others` by identity (which
+         the snapshot reproduces through __eq__) and clears; the others do not mutate: a snapshot in each case *)
+      m_step1 c s (expand_mix k (map (resolve_self (m_live s)) os))
   | _ => m_step1 c s o
   end.
 
